@@ -309,3 +309,58 @@ def enrol_family():
         assumptions=["the enrolment itself is run through the public functions (not over the network); the dial afterwards goes through a real InterceptingListener over the same server storage",
                      "TLC checks completion (liveness under weak fairness) and the refuse-unless-bound rule of the node on the Enroll.tla model for every configuration"],
     )
+
+
+# ------------------------------------------------------------------ C15
+def iso_extra(prop, tier, seed):
+    out = []
+    n = 0
+    spares = [0, 1, 3] if tier == "quick" else [0, 1, 2, 3, 8]
+    pairs = [("token", "token", "tokenRemove"), ("token", "auth", "tokenRemove"), ("token", "rejected", "tokenRemove"),
+             ("auth", "auth", "genBefore"), ("auth", "auth", "genAfter"), ("auth", "token", "genBefore"), ("auth", "token", "genAfter"),
+             ("auth", "rejected", "genBefore"), ("rejected", "auth", "genBefore"), ("rejected", "token", "genBefore")]
+    for sp in spares:
+        ops = [dict(op="Schedule", a=a, b=b, gate=g, spare=sp) for (a, b, g) in pairs]
+        n += 1
+        out.append(dict(id="sch_spare%d" % sp, ops=ops))
+    for r in range(3 if tier == "quick" else 40):
+        out.append(dict(id="mix_%d" % r, ops=[dict(op="Mix", spare=[0, 2, 8][r % 3], a="none", b="none", gate="none")]))
+    return out
+
+
+def iso_post(prop, tier, seed, scr, coverage, known):
+    """race detector on the free-running mixes"""
+    insts = [dict(id="race_%d" % r, ops=[dict(op="Mix", spare=[2, 8, 0][r % 3], a="none", b="none", gate="none")]) for r in range(4 if tier == "quick" else 60)]
+    exe = build_harness(scr, race=True)
+    inp, outp = scr.path("iso_race.ndjson"), scr.path("iso_race_out.ndjson")
+    write_ndjson(inp, insts)
+    racelog = scr.path("race_iso")
+    env = dict(os.environ, GORACE="log_path=%s halt_on_error=0 exitcode=0" % racelog)
+    p = subprocess.run([exe, "iso", "-in", inp, "-out", outp, "-seed", str(seed), "-par", "2"], stdout=subprocess.PIPE, stderr=subprocess.STDOUT, text=True, env=env, timeout=1800)
+    if p.returncode != 0:
+        raise Broken("iso race run failed: %s" % p.stdout[-2000:])
+    races = [open(f).read()[:3000] for f in glob.glob(racelog + "*") if "DATA RACE" in open(f).read()]
+    # only races that involve the library (not the harness' own bookkeeping) count
+    races = [r for r in races if "nodeenrollment/protocol" in r or "nodeenrollment/registration" in r or "nodeenrollment/tls" in r]
+    coverage["race_detector_mixes"] = len(insts)
+    coverage["race_reports"] = len(races)
+    if races:
+        rp = replay_path(prop, "race-s%s" % seed)
+        json.dump(dict(property=prop, seed=seed, behaviour=insts[0], race_reports=races[:2]), open(rp, "w"), indent=1)
+        print("VIOLATION property=%s replay=%s  # clause=data-race on listener/option state (Go race detector)" % (prop, rp))
+        return 1
+    return 0
+
+
+def iso_family():
+    mcs = [("MC_OptSlice.tla", "MC_OptSlice_%s_%d_perconn.cfg" % (k, sp)) for k in ("TokTok", "TokAuth", "AuthAuth", "AuthRej") for sp in (0, 2)]
+    wit = [("MC_OptSlice.tla", "MC_OptSlice_w_app.cfg", "NoSharedWrite"), ("MC_OptSlice.tla", "MC_OptSlice_w_listener.cfg", "Isolation")]
+    return dict(
+        driver="iso", trace_module="OptSliceTrace.tla", trace_consts={}, level="model_checking", fixed=None,
+        nontrivial=lambda p, l: l["obs"]["parked"] or l["op"]["op"] == "Mix",
+        mc=dict(quick=mcs, thorough=mcs), witness=dict(quick=wit, thorough=wit),
+        gen=[], extra=iso_extra, post=iso_post, confirm_attempts=3,
+        rule={"*": "Schedule lines: connection A (token enrolment / authentication / rejected authentication) is parked at a harness gate (storage Remove of its token, or before / after the server-certificate callback) while connection B runs to completion on a second Accept goroutine, then A resumes; for application option slices with spare capacity 0..8; Mix lines: six concurrent handshakes on four Accept goroutines; each connection's outcome, reported protocols / state and stored record are compared with what it gets alone, and the application's slice is checked for writes beyond its length"},
+        assumptions=["interleavings are forced only at the gate points the harness owns (storage calls, the two callbacks); finer interleavings are covered on the OptSlice.tla model and by the race detector on free-running mixes",
+                     "'no data race' is decided by the Go race detector, not by TLC"],
+    )
